@@ -32,30 +32,37 @@ func runC16(e *Env) {
 
 func c16ProbeFirst(e *Env) {
 	r := e.R
-	r.Rule("C16.probe-first", "DCS", "Agent.Run: effects only after checkIsAlreadyRunning()==nil", 4)
-	run := e.Fn("internal/agent", "(*Agent).Run")
+	r.Rule("C16.probe-first", "DCS", "Agent.Run: effects only after the already-running probe passed", 4)
+	a := e.agentRoles()
+	run := a.Run
 	if run == nil {
 		return
 	}
-	agentOrdered(e, run, "checkIsAlreadyRunning()==nil", func(lits []ir.NLit) bool {
-		for _, l := range lits {
-			if l.Kind == "cmp" && l.Op == token.EQL && ir.IsNilConst(l.Y) && calleeIs(l.X, ").checkIsAlreadyRunning") {
-				return true
-			}
-		}
-		return false
-	}, []string{").Schedule", ").setupDatabase", ").setupSocketServer", "HistoryStore.Write", "HistoryStore.Open", "HistoryStore.Close", "Server).Serve"},
-		"records / binds / executes although the already-running probe has not (successfully) passed: a refused start would record a run or unlink the live run's socket")
-	// the only exception: dry runs (C03) schedule without the probe
+	isDry := func(v ssa.Value) bool {
+		p, ok := e.C.PathOf(v)
+		return ok && p.Dotted() == "dry"
+	}
+	agentOrdered(e, "the already-running probe passed", a.PassedGuard(apiProbe),
+		[]string{apiSchedule, apiHistory, apiServe},
+		"records / binds / executes although the already-running probe has not (successfully) passed: a refused start would record a run or unlink the live run's socket",
+		// the only exception: dry runs (C03) schedule without the probe
+		func(lits []ir.NLit) bool { return HasVal(lits, isDry, true) })
 	// the probe's refusal edge returns the error
 	ok := false
-	for _, ci := range ir.CallsIn(run, func(c *ssa.CallCommon) bool { return strings.HasSuffix(ir.CalleeName(c), ").checkIsAlreadyRunning") }) {
-		call := ci.(*ssa.Call)
+	for _, ci := range a.Sites(run, apiProbe) {
+		call, isC := ci.(*ssa.Call)
+		if !isC || call.Parent() != run {
+			continue
+		}
 		for _, b := range run.Blocks {
 			for _, in := range b.Instrs {
 				if rt, isR := in.(*ssa.Return); isR {
 					for _, v := range RetVals(rt, 0) {
-						if ir.Resolve(v) == ssa.Value(call) {
+						rv := ir.Resolve(v)
+						if ex, isE := rv.(*ssa.Extract); isE {
+							rv = ex.Tuple
+						}
+						if rv == ssa.Value(call) {
 							ok = true
 						}
 					}
@@ -150,7 +157,12 @@ func c16ProbeRefusals(e *Env, probe *ssa.Function, none int64) {
 func c16ProbeTable(e *Env) {
 	r := e.R
 	r.Rule("C16.probe-table", "DCS+VF", "probe and status getter decision tables", 4)
-	probe := e.Fn("internal/agent", "(*Agent).checkIsAlreadyRunning")
+	var probe *ssa.Function
+	if hs := e.agentRoles().Holders(apiProbe); len(hs) == 1 && hs[0] != e.agentRoles().Run {
+		probe = hs[0]
+	} else {
+		r.Unknown("the agent's already-running probe", "internal/agent", sprintf("%d functions of the agent package call GetCurrentStatus (a probe written into Run itself is not supported)", len(hs)))
+	}
 	getter := e.Fn("internal/client", "(*client).GetCurrentStatus")
 	_, ss := e.EnumOf(schedRel, "Status")
 	none := ConstVal(ss, "StatusNone")
@@ -385,7 +397,11 @@ func c16ProbeTable(e *Env) {
 	cr := e.Fn("internal/sock", "(*Client).Request")
 	if cr != nil {
 		ok := false
-		for _, ci := range ir.CallsIn(cr, func(c *ssa.CallCommon) bool { return ir.IsCallTo(c, "fmt.Errorf") }) {
+		var wraps []ssa.CallInstruction
+		for _, g := range e.withPkgHelpers(cr) {
+			wraps = append(wraps, ir.CallsIn(g, func(c *ssa.CallCommon) bool { return ir.IsCallTo(c, "fmt.Errorf") })...)
+		}
+		for _, ci := range wraps {
 			f, _ := ir.ConstString(ci.Common().Args[0])
 			if !strings.Contains(f, "%w") {
 				continue
@@ -450,29 +466,41 @@ func c16AtomicClaim(e *Env) {
 	if serve == nil {
 		return
 	}
+	// the bind and the unlink may sit in Serve or in helpers of its package
 	var listen ssa.Instruction
-	for _, ci := range ir.CallsIn(serve, func(c *ssa.CallCommon) bool { return ir.IsCallTo(c, "net.Listen", "(*net.ListenConfig).Listen") }) {
-		listen = ci
+	body := e.withPkgHelpers(serve)
+	for _, f := range body {
+		for _, ci := range ir.CallsIn(f, func(c *ssa.CallCommon) bool { return ir.IsCallTo(c, "net.Listen", "(*net.ListenConfig).Listen") }) {
+			listen = ci
+		}
 	}
 	if listen == nil {
 		r.Unknown("sock.Server.Serve: bind", e.Pos(serve.Pos()), "no net.Listen call")
 		return
 	}
+	addrArg := listen.(ssa.CallInstruction).Common().Args[len(listen.(ssa.CallInstruction).Common().Args)-1]
+	sameAddr := func(v ssa.Value) bool {
+		pa, ok1 := e.C.PathOf(v)
+		pb, ok2 := e.C.PathOf(addrArg)
+		return ok1 && ok2 && pa.Dotted() == pb.Dotted() && ir.NamedType(pa.Root.Type()) == ir.NamedType(pb.Root.Type())
+	}
 	// an unconditional unlink of the socket path before the bind defeats bind's own exclusivity
 	unlinked := false
 	var pos string
-	for _, ci := range ir.CallsIn(serve, func(c *ssa.CallCommon) bool { return ir.IsCallTo(c, "os.Remove", "os.RemoveAll", "syscall.Unlink") }) {
-		if ir.Precedes(ci, listen) && e.IsFieldRead(ci.Common().Args[0], nil, "addr") {
-			// conditional on a liveness test?
-			guarded := false
-			for _, l := range e.DCS(ci) {
-				if l.Kind == "cmp" || l.Kind == "val" {
-					guarded = true
+	for _, f := range body {
+		for _, ci := range ir.CallsIn(f, func(c *ssa.CallCommon) bool { return ir.IsCallTo(c, "os.Remove", "os.RemoveAll", "syscall.Unlink") }) {
+			if liftedPrecedes(ci, listen) && sameAddr(ci.Common().Args[0]) {
+				// conditional on a liveness test?
+				guarded := false
+				for _, l := range e.DCS(ci) {
+					if l.Kind == "cmp" || l.Kind == "val" {
+						guarded = true
+					}
 				}
-			}
-			if !guarded {
-				unlinked = true
-				pos = e.InstrPos(ci)
+				if !guarded {
+					unlinked = true
+					pos = e.InstrPos(ci)
+				}
 			}
 		}
 	}
